@@ -61,7 +61,25 @@ def run(ctx):
         fw = [n for n in ast.walk(fit.fi.node) if isinstance(n, ast.Call) and isinstance(n.func, ast.Attribute) and n.func.attr == "_check_fit_params"]
         res.check(bool(fw) and all(any(k.arg == "seed" and norm(k.value) == "seed" for k in c.keywords) for c in fw), "R-SEEDED", fit.fi.short, "self._check_fit_params(seed=seed)", "forward", "fit's seed is not handed to the parameter check that seeds the generator", loc(fit.fi, fit.fi.node))
         sc = [n for n in ast.walk(cfp.fi.node) if isinstance(n, ast.Call) and isinstance(n.func, ast.Attribute) and n.func.attr == "_set_seed"]
-        res.check(bool(sc) and all(c.args and norm(c.args[0]) == "seed" for c in sc), "R-SEEDED", cfp.fi.short, norm(sc[0]) if sc else "self._set_seed(seed)", "set", "the generator is not (re)seeded with fit's seed", loc(cfp.fi, cfp.fi.node))
+        if not sc:
+            # the seeding moved into a helper that is handed the seed under its own name: `self._preprocess_data(..., seed=seed)`
+            hop, seen_h = cfp, set()
+            while hop is not None and hop.fi.qualname not in seen_h and not sc:
+                seen_h.add(hop.fi.qualname)
+                nxt = None
+                for c in walk_no_nested(hop.fi.node):
+                    if isinstance(c, ast.Call) and (any(k.arg == "seed" and norm(k.value) == "seed" for k in c.keywords) or any(norm(a_) == "seed" for a_ in c.args)):
+                        for g in ctx.callees(hop.fi, c):
+                            if g.cls is cfp.fi.cls and any(a_.arg == "seed" for a_ in list(g.params) + list(g.node.args.kwonlyargs)):
+                                nxt = ctx.view(g)
+                hop = nxt
+                if hop is not None:
+                    sc = [n for n in ast.walk(hop.fi.node) if isinstance(n, ast.Call) and isinstance(n.func, ast.Attribute) and n.func.attr == "_set_seed"]
+            if not sc and any(isinstance(c, ast.Call) and any(isinstance(x, ast.Name) and x.id == "seed" for a_ in list(c.args) + [k.value for k in c.keywords] for x in ast.walk(a_)) for c in walk_no_nested(cfp.fi.node)):
+                res.unknown("R-SEEDED", cfp.fi.short, "self._set_seed(seed)", "set", "the seed is handed on; where the generator is seeded was not found", loc(cfp.fi, cfp.fi.node))
+                sc = None
+        if sc is not None:
+          res.check(bool(sc) and all(c.args and norm(c.args[0]) == "seed" for c in sc), "R-SEEDED", cfp.fi.short, norm(sc[0]) if sc else "self._set_seed(seed)", "set", "the generator is not (re)seeded with fit's seed", loc(cfp.fi, cfp.fi.node))
         rs = [n for n in ast.walk(fit.fi.node) if isinstance(n, ast.Call) and isinstance(n.func, ast.Attribute) and n.func.attr == "_set_seed"]
         for c in rs:
             arg_i = fit.inline(c.args[0]) if c.args else None
@@ -312,6 +330,8 @@ def run(ctx):
                 res.add("I-ISOL", v.fi.short, a, "from-incidence", "violation" if from_labels and "transform(" not in a else "unknown", "isolated nodes are taken from the hypergraph's node labels, not from the rows of the incidence matrix: with labels other than 0..N-1 the wrong rows are dropped", loc(v.fi, v.fi.node))
     with res.guard("N-LAGRANGE"):
         check_lagrange(ctx, res)
+    with res.guard("I-DENSESIZES"):
+        check_dense_sizes(ctx, res)
     res.assumptions += ["scipy.sparse.csr_array is introspected on a 1x1 instance of the installed library (trusted base)", "sklearn KMeans with a fixed random_state is deterministic (library)"]
     with res.guard("general lint pack over the property's files"):
         from ..lints import check_pack
@@ -403,3 +423,47 @@ def check_lagrange(ctx, res, rule="N-LAGRANGE"):
                 res.unknown(rule, fi.short, norm(c)[:100], "same-denominator", "the division that uses the multiplier was not recognised as `num / (lambda + den)`", loc(fi, c))
     if n_calls == 0:
         res.unknown(rule, "HypergraphMT", "enforce_constraint_u(num, den)", "same-denominator", "no call of enforce_constraint_u found", "hypergraphx/communities/hypergraph_mt/model.py")
+
+
+def check_dense_sizes(ctx, res, rule="I-DENSESIZES"):
+    """HyD2eId (hyperedge ids per size) is consumed BY POSITION: position d stands for size d + 2 and selects row d of `w` and of the
+    psi matrices.  That holds only if the list has one slot - possibly empty - for EVERY size 2..D.  A list with one slot per
+    OBSERVED size (np.unique / set of the sizes) shifts every size above a gap into the row of a smaller one."""
+    res.rules[rule] = "the per-size lists of hyperedge ids have one slot for every size 2..D (built over a range), not one per observed size, because their positions are used as row indices of w"
+    mod = ctx.require("HypergraphMT.fit").module
+    builders = []
+    for fi in ctx.prog.functions.values():
+        if fi.module is not mod:
+            continue
+        for comp in [n for n in ast.walk(fi.node) if isinstance(n, ast.ListComp) and len(n.generators) == 1]:
+            g = comp.generators[0]
+            if not isinstance(g.target, ast.Name):
+                continue
+            # [ ... np.where(SIZES == d) ... for d in <sizes> ]
+            if any(isinstance(c, ast.Compare) and len(c.ops) == 1 and isinstance(c.ops[0], ast.Eq) and any(isinstance(x, ast.Name) and x.id == g.target.id for x in (c.left, c.comparators[0])) for c in ast.walk(comp.elt)) and any(isinstance(x, ast.Call) and norm(x.func).endswith("where") for x in ast.walk(comp.elt)):
+                builders.append((fi, comp, g))
+    if not builders:
+        res.unknown(rule, "hypergraph_mt.model", "[np.where(HyeId2D == d)[0] for d in ...]", "every-size", "the construction of the per-size hyperedge lists was not recognised", mod.relpath)
+        return
+    # positional consumers: enumerate(self.HyD2eId) / self.HyD2eId[d]
+    positional = []
+    for fi in ctx.prog.functions.values():
+        if fi.module is mod:
+            for n in ast.walk(fi.node):
+                if isinstance(n, ast.Call) and isinstance(n.func, ast.Name) and n.func.id == "enumerate" and n.args and isinstance(n.args[0], ast.Attribute) and "D2eId" in n.args[0].attr:
+                    positional.append(n)
+                if isinstance(n, ast.Subscript) and isinstance(n.value, ast.Attribute) and "D2eId" in n.value.attr and isinstance(n.slice, ast.Name):
+                    positional.append(n)
+    for fi, comp, g in builders:
+        v = ctx.view(fi)
+        it = v.inline(g.iter, depth=3)
+        calls = [norm(x.func).split(".")[-1] for x in ast.walk(it) if isinstance(x, ast.Call)]
+        if calls and calls[0] in ("arange", "range"):
+            res.ok(rule, fi.short, norm(comp)[:100], "every-size", loc(fi, comp))
+        elif any(c in ("unique", "set", "Counter", "keys", "nonzero", "flatnonzero") for c in calls):
+            if positional:
+                res.violation(rule, fi.short, norm(comp)[:100], "every-size", f"the per-size lists are built over `{norm(it)[:50]}` - the sizes that OCCUR - while `{norm(positional[0])[:50]}` uses a position in the list as `size - 2`: when a size between 2 and D has no hyperedge, the statistics of every larger size update the wrong row of w (the update is no longer the M-step; the likelihood can decrease)", loc(fi, comp))
+            else:
+                res.unknown(rule, fi.short, norm(comp)[:100], "every-size", "built over the observed sizes; no positional consumer recognised", loc(fi, comp))
+        else:
+            res.unknown(rule, fi.short, norm(comp)[:100], "every-size", f"the population of sizes (`{norm(it)[:50]}`) was not recognised", loc(fi, comp))
